@@ -18,6 +18,8 @@ def make_executor(chk, cfg=None):
         sys.exit(2)
     chk.extra['mir_source_hash'] = h
     chk.extra['mir_regenerated_s'] = round(secs, 1)
+    cfg = dict(cfg or {})
+    cfg.setdefault('time_budget_s', 1500 if chk.tier == 'quick' else 6 * 3600)     # per exploration; exhausted -> exit 2
     ex = Executor(mir, common.SRC, cfg)
     models.install(ex)
     return ex
